@@ -188,7 +188,9 @@ Lemma lib_with_pos w it e : interp_with_lib w it = Err e -> (0 < len e)%N.
 Proof.
   unfold interp_with_lib. destruct (str_eqb w "w_len").
   - destruct (from_meta string_fm it) as [v|y|m] eqn:R; cbn [map_ok]; try discriminate. intros [= <-]. now apply (proj1 string_pos it).
-  - destruct (str_eqb w "w_fail"); [|discriminate]. intros [= <-]. cbn. lia.
+  - destruct (str_eqb w "w_opt_len").
+    + destruct (from_meta string_fm it) as [v|y|m] eqn:R; cbn [map_ok]; try discriminate. intros [= <-]. now apply (proj1 string_pos it).
+    + destruct (str_eqb w "w_fail"); [|discriminate]. intros [= <-]. cbn. lia.
 Qed.
 
 Lemma lib_fn_pos consts g v e : interp_fn_lib consts g v = Err e -> (0 < len e)%N.
